@@ -13,7 +13,7 @@ LEAN_MODULES = ["MpirProofs.Props.C05_div", "MpirProofs.Props.C05_mpz", "MpirPro
 THEOREMS = ["Mpir.AliasMem.ofInts_ok",
             "Mpir.AliasMem.tdiv_qr_ptr_spec", "Mpir.AliasMem.tdiv_qr_alias", "Mpir.AliasMem.tdiv_q_ptr_spec", "Mpir.AliasMem.tdiv_r_ptr_spec",
             "Mpir.AliasMem.cfdiv_qr_ptr_spec", "Mpir.AliasMem.cfdiv_qr_alias", "Mpir.AliasMem.cfdiv_q_ptr_spec", "Mpir.AliasMem.cfdiv_r_ptr_spec",
-            "Mpir.AliasMem.mod_ptr_spec", "Mpir.AliasMem.divexact_ptr_spec", "Mpir.AliasMem.div3_alias", "Mpir.AliasMem.div_q_ui_ptr_spec",
+            "Mpir.AliasMem.mod_ptr_spec", "Mpir.AliasMem.divexact_ptr_spec", "Mpir.AliasMem.div3_alias", "Mpir.AliasMem.div_q_ui_ptr_spec", "Mpir.AliasMem.div_r_ui_ptr_spec", "Mpir.AliasMem.div_qr_ui_ptr_spec",
             "Mpir.AliasMem.mul_2exp_ptr_spec", "Mpir.AliasMem.tdiv_q_2exp_ptr_spec", "Mpir.AliasMem.cfdiv_q_2exp_ptr_spec", "Mpir.AliasMem.tdiv_r_2exp_ptr_spec",
             "Mpir.AliasMem.mpz_and_ptr_spec", "Mpir.AliasMem.mpz_xor_ptr_spec", "Mpir.AliasMem.logic_ptr_spec", "Mpir.AliasMem.mpz_com_ptr_spec",
             "Mpir.AliasMem.sqrtrem_ptr_spec", "Mpir.AliasMem.mpz_gcd_ptr_spec", "Mpir.AliasMem.mpz_neg_ptr_spec", "Mpir.AliasMem.mpz_abs_ptr_spec", "Mpir.AliasMem.mpz_set_ptr_spec",
@@ -22,6 +22,8 @@ THEOREMS = ["Mpir.AliasMem.ofInts_ok",
 PINS = [("mpz/tdiv_qr.c", None), ("mpz/tdiv_q.c", None), ("mpz/tdiv_r.c", None),
         ("mpz/fdiv_qr.c", None), ("mpz/cdiv_qr.c", None), ("mpz/fdiv_q.c", None), ("mpz/cdiv_q.c", None),
         ("mpz/fdiv_r.c", None), ("mpz/cdiv_r.c", None), ("mpz/mod.c", None), ("mpz/divexact.c", None), ("mpz/tdiv_q_ui.c", None), ("mpz/fdiv_q_ui.c", None), ("mpz/cdiv_q_ui.c", None),
+        ("mpz/tdiv_r_ui.c", None), ("mpz/fdiv_r_ui.c", None), ("mpz/cdiv_r_ui.c", None),
+        ("mpz/tdiv_qr_ui.c", None), ("mpz/fdiv_qr_ui.c", None), ("mpz/cdiv_qr_ui.c", None),
         ("mpz/mul_2exp.c", None), ("mpz/tdiv_q_2exp.c", None), ("mpz/cfdiv_q_2exp.c", None), ("mpz/tdiv_r_2exp.c", None),
         ("mpz/sqrtrem.c", None), ("mpz/gcd.c", None), ("mpz/neg.c", None), ("mpz/abs.c", None), ("mpz/and.c", None), ("mpz/ior.c", None), ("mpz/xor.c", None), ("mpz/com.c", None),
         ("mpf/neg.c", None), ("mpf/abs.c", None), ("mpf/add.c", None), ("mpf/sub.c", None), ("mpf/add_ui.c", None),
@@ -162,6 +164,28 @@ def gen_ops(rng, tier, ctx=None):
                     yield "alias_sqrtrem %x %x %x 0 %s" % (r, m, o, " ".join(hx(x) for x in v))
     # mpz_{t,f,c}div_q_ui: q = n in place; divisors 1, 2, 2^63, 2^64-1, random; exact multiples (no adjust), dividend with a top limb that
     # vanishes in the quotient, zero dividend, zero divisor
+    def _uival(v, u):
+        d = rng.choice([1, 2, 3, 1 << 63, (1 << 64) - 1, rng.getrandbits(64) | 1, rng.getrandbits(rng.randrange(1, 65)) | 1])
+        k = rng.randrange(6)
+        if k == 0: v[u] = rng.choice([1, -1]) * d * _mag(rng, rng.choice([1, 2, 3]))
+        elif k == 1: v[u] = rng.choice([1, -1]) * ((rng.randrange(1, d) if d > 1 else 1) << (64 * rng.choice([1, 2, 3])) | rng.getrandbits(64))
+        elif k == 2: v[u] = 0
+        if rng.random() < 0.03: d = 0
+        return d
+    for fn in ("tdiv_qr_ui", "fdiv_qr_ui", "cdiv_qr_ui"):
+        for q in range(4):
+            for r in range(4):
+                if q == r: continue
+                for u in range(4):
+                    for _ in range(reps):
+                        v = _values(rng, big); d = _uival(v, u)
+                        yield "alias_%s %x %x %x %x %s" % (fn, q, r, u, d, " ".join(hx(x) for x in v))
+    for fn in ("tdiv_r_ui", "fdiv_r_ui", "cdiv_r_ui"):
+        for w in range(4):
+            for u in range(4):
+                for _ in range(reps * 2):
+                    v = _values(rng, big); d = _uival(v, u)
+                    yield "alias_%s %x %x %x %s" % (fn, w, u, d, " ".join(hx(x) for x in v))
     for fn in ("tdiv_q_ui", "fdiv_q_ui", "cdiv_q_ui"):
         for w in range(4):
             for u in range(4):
